@@ -94,7 +94,10 @@ def make_plane(lentil, act, arg):
         if arg == 'Image':
             return lentil.Image()
         if arg == 'Tilt':
-            return lentil.Tilt(x=0.1, y=-0.1)
+            # every other tilt element steers the beam far off any output grid: the TYPE of a propagation result does not depend on
+            # whether any light lands on the grid
+            TILTS[0] += 1
+            return lentil.Tilt(x=0.1, y=-0.1) if TILTS[0] % 2 else lentil.Tilt(x=40.0, y=-55.0)
         if arg in ('DispersiveTilt', 'Grism'):
             return getattr(lentil, arg)(trace=[1.0, 0.0], dispersion=[1.0, 1.0])
         if arg == 'Rotate':
@@ -116,6 +119,7 @@ def start_wavefront(lentil, t):
     return w * p
 
 
+TILTS = [0]
 SHARED = {}          # plane objects reused across programs (the same Tilt meets pupil, image and none wavefronts)
 
 
@@ -137,6 +141,8 @@ def run_program(lentil, prog):
             if act == 'Propagate':
                 if (salt + i) % 3 == 0:
                     w = copy.deepcopy(w)
+                elif (salt + i) % 3 == 1:
+                    w = pickle.loads(pickle.dumps(w))            # as when handed to a worker process
                 before = (digest_obj(w),)
                 if arg == 'dft':
                     r = lentil.propagate_dft(w, pixelscale=1.0, shape=N, oversample=1)
@@ -146,12 +152,16 @@ def run_program(lentil, prog):
                 if (salt + i) % 3 == 0:
                     # a wavefront that is EQUAL to w but shares no object with it (type objects included)
                     w = copy.deepcopy(w)
+                elif (salt + i) % 3 == 1:
+                    w = pickle.loads(pickle.dumps(w))
                 if (salt + i) % 2 == 0 and arg not in ('Rotate', 'Flip'):
                     plane = SHARED.get((act, arg))
                     if plane is None:
                         plane = SHARED[(act, arg)] = make_plane(lentil, act, arg)
                 else:
                     plane = make_plane(lentil, act, arg)
+                    if (salt + i) % 5 == 1 and arg not in ('Rotate', 'Flip'):
+                        plane = pickle.loads(pickle.dumps(plane))
                 if exp == 'TypeError' and (i + len(prog)) % 2 == 0:
                     plane = make_plane(lentil, act, arg)
                     # the type rule decides even when something else is wrong as well (here: an inconsistent pixel scale)
